@@ -227,6 +227,7 @@ type step struct {
 type outcome struct {
 	key, what string
 	trace     []step
+	global    bool // key is not template-specific
 }
 
 // runHistory executes one history on a fresh copy of the prefix directory.
@@ -257,6 +258,7 @@ func runHistory(p *prefix, t *tmpl, events []int, states map[string]bool, mu *sy
 			res = fail("panic:"+msg, fmt.Sprint("panic: ", r))
 		}
 	}()
+	failedReorg := false // a reorganisation has failed earlier in this history
 	var orphans []int
 	okHashes := map[[32]byte]bool{p.tip: true}
 	delivered := map[int]bool{}
@@ -276,13 +278,21 @@ func runHistory(p *prefix, t *tmpl, events []int, states map[string]bool, mu *sy
 				}
 				return fmt.Sprintf("%x", h[:4])
 			}
-			tie := ""
+			// Classification of one specific, listed defect: right after a failed
+			// reorganisation gocoin falls back to the heaviest leaf by child order
+			// (ParseTillBlock -> FindFarthestNode) instead of returning to the tip it
+			// had; with equal-work leaves that may not be the first seen one.
+			isTie := false
 			for _, b := range best[1:] {
 				if b.Hash == tip {
-					tie = "-tie-not-first-seen"
+					isTie = true
 				}
 			}
-			return fail("tip-mismatch"+tie, fmt.Sprintf("after %s: tip is %s, reference best valid tip is %s", evname, name(tip), name(best[0].Hash)))
+			if isTie && failedReorg {
+				return &outcome{key: "tip-tie-not-first-seen-after-failed-reorg", global: true, trace: trace,
+					what: fmt.Sprintf("after %s: tip is %s, first-seen best valid tip is %s (equal work)", evname, name(tip), name(best[0].Hash))}
+			}
+			return fail("tip-mismatch", fmt.Sprintf("after %s: tip is %s, reference best valid tip is %s", evname, name(tip), name(best[0].Hash)))
 		}
 		want := m.UTXOAt(best[0])
 		_, wh := refchain.Dump(want)
@@ -303,6 +313,9 @@ func runHistory(p *prefix, t *tmpl, events []int, states map[string]bool, mu *sy
 	}
 	offer := func(i int) string {
 		r := e.Deliver(t.blocks[i].Bytes())
+		if strings.Contains(r, "MoveToBlock failed") {
+			failedReorg = true
+		}
 		atomic.AddInt64(trans, 1)
 		trace = append(trace, step{Ev: "deliver " + t.names[i], Result: r})
 		if r == "ok" {
@@ -555,7 +568,9 @@ func main() {
 				o := runWatched(p, j.t, j.ev, states, &mu, &trans)
 				atomic.AddInt64(&hist, 1)
 				atomic.AddInt64(perTemplate[j.t.name], 1)
-				if o != nil {
+				if o != nil && o.global {
+					r.Report(o.key, o.what, map[string]interface{}{"template": j.t.name, "events": evNames(j.t, j.ev), "trace": o.trace})
+				} else if o != nil {
 					r.Report(j.t.name+"/"+o.key, o.what, map[string]interface{}{"template": j.t.name, "events": evNames(j.t, j.ev), "trace": o.trace})
 				} else if len(j.ev) > 0 {
 					samples.Add(map[string]interface{}{"template": j.t.name, "events": evNames(j.t, j.ev)})
